@@ -22,7 +22,7 @@ func DecodeDependencies(buf []byte) ([]PackageDependency, error) {
 	var out []PackageDependency
 	cursor := parse.NewAtomCursor(buf)
 	for {
-		dep, err := decodeDependency(cursor)
+		dep, err := decodeDependency(cursor, 0)
 		if err != nil {
 			return nil, err
 		}
@@ -90,20 +90,30 @@ var toktype_to_pkg_dep map[int]int = map[int]int{
 	toktype_at_most_one_of: Pkg_dep_at_most_one_of,
 }
 
-func decodeDependency(ac *parse.AtomCursor) (PackageDependency, error ) {
+// decodeDependency returns the next dependency item, or nil at the end of the current
+// group: the end of input at the top level (depth 0), a closing parenthesis inside a group.
+func decodeDependency(ac *parse.AtomCursor, depth int) (PackageDependency, error ) {
 	var dep PackageDependency
 	var newType int
 	var err error
 	start, toktype, useFlag := getToken(ac)
 	switch toktype {
-	case toktype_eof, toktype_close:
+	case toktype_eof:
+		if depth > 0 {
+			return nil, fmt.Errorf("missing ) at end of dependency string")
+		}
+		return nil, nil
+	case toktype_close:
+		if depth == 0 {
+			return nil, fmt.Errorf("unmatched ) in dependency string")
+		}
 		return nil, nil
 	case toktype_error:
 		return nil, fmt.Errorf("unrecognized dependency token %s", ac.RemainingToken())
 	case toktype_open:
 		var list []PackageDependency
 		for {
-			dp, err := decodeDependency(ac)
+			dp, err := decodeDependency(ac, depth + 1)
 			if err != nil {
 				return nil, err
 			}
@@ -115,9 +125,13 @@ func decodeDependency(ac *parse.AtomCursor) (PackageDependency, error ) {
 		dep = &ConditionalPackageDependency{Type: Pkg_dep_all, Deps: list}
 		return dep, nil
 	case toktype_when_use_set, toktype_when_use_unset:
-		dep, err = decodeDependency(ac)
+		dep, err = decodeDependency(ac, depth)
 		if err != nil {
 			return nil, err
+		}
+		if dep == nil {
+			return nil, fmt.Errorf("nothing follows USE flag %s: %s", useFlag,
+				ac.RemainingTokenAtPos(start))
 		}
 		newType = toktype_to_pkg_dep[toktype]
 		switch dep.DependencyType() {
@@ -134,21 +148,27 @@ func decodeDependency(ac *parse.AtomCursor) (PackageDependency, error ) {
 		}
 		return dep, nil
 	case toktype_any_of, toktype_exactly_one_of, toktype_at_most_one_of:
-		dep, err = decodeDependency(ac)
+		dep, err = decodeDependency(ac, depth)
 		if err != nil {
 			return nil, err
 		}
 		newType = toktype_to_pkg_dep[toktype]
-		if dep.(*ConditionalPackageDependency).Type != Pkg_dep_all {
+		group, isGroup := dep.(*ConditionalPackageDependency)
+		if !isGroup || group.Type != Pkg_dep_all {
 			return nil, fmt.Errorf("invalid pattern after %s: %s",
 			ac.RemainingTokenAtPos(start), ac.SampleAfterPos(start+3))
 		}
-		dep.(*ConditionalPackageDependency).Type = newType
+		group.Type = newType
 		return dep, nil
 	case toktype_test_for_atom:
+		atomStart := ac.Pos
 		dep, err = newDependencyAtomAtCursor(ac, true)
 		if err != nil {
 			return nil, err
+		}
+		if ac.Peek() > ' ' {
+			return nil, fmt.Errorf("atom %s followed by extraneous characters: %s",
+				ac.Slice[atomStart:ac.Pos], ac.RemainingToken())
 		}
 		return dep, nil
 	}
